@@ -18,6 +18,7 @@
 #include <sys/syscall.h>
 #include <linux/futex.h>
 #include <atomic>
+#include <algorithm>
 #include <cstdio>
 #include <cstdlib>
 #include <cstring>
@@ -60,7 +61,7 @@ static const int MAXLOCK = 4096;
 
 struct Thr {
     pthread_t th;
-    int state;             // 0 = not started, 1 = runnable, 2 = blocked on lock, 3 = finished
+    int state;             // 0 = not started, 1 = runnable, 2 = blocked on lock, 3 = finished, 4 = waiting at a barrier
     const void* waits_on;  // lock address / critical tag when blocked
     std::atomic<int> go;   // futex word: 1 = may run
     const char* site;
@@ -166,7 +167,7 @@ static void region_end_or_deadlock() {
     if (!all_done) {
         g_deadlock = true;
         // release everybody so that the process can terminate the region: blocked threads are let through
-        for (int t = 0; t < g_nthr; t++) if (g_thr[t].state == 2) { g_thr[t].state = 1; }
+        for (int t = 0; t < g_nthr; t++) if (g_thr[t].state == 2 || g_thr[t].state == 4) { g_thr[t].state = 1; }
         for (int t = 0; t < g_nthr; t++) if (g_thr[t].state == 1) { resume(t); return; }
     }
     g_running = -1;
@@ -186,9 +187,20 @@ static void point(const char* site) {
     wait_for_baton(me);
 }
 
+// ------------------------------------------------------------------------------------------------ sections work share
+static std::atomic<int> g_sections_next; static int g_sections_count = 0;
+
+// ------------------------------------------------------------------------------------------------ barrier, single, dynamically scheduled loops
+static int g_barrier_arrived = 0;                      // explore mode (one thread runs at a time)
+static pthread_barrier_t g_real_barrier; static bool g_real_barrier_ok = false;   // free mode
+static std::atomic<unsigned long> g_single_count; static thread_local unsigned long tl_single_count = 0;
+struct WS { unsigned long long n = 0, next = 0, chunk = 1; long long lstart = 0, lincr = 1; unsigned long long ustart = 0, uincr = 1; bool up = true; };   // a work share: n iterations, handed out in chunks
+static WS g_ws; static std::atomic<unsigned long> g_ws_gen; static thread_local unsigned long tl_ws_count = 0; static thread_local WS tl_ws; static bool g_ws_preinit = false;
+static pthread_mutex_t g_real_ws = PTHREAD_MUTEX_INITIALIZER;
+
 static void* thread_main(void* arg) {
     int me = (int)(long)arg;
-    tl_tid = me; tl_team = g_nthr; tl_in_region = 1;
+    tl_tid = me; tl_team = g_nthr; tl_in_region = 1; tl_single_count = 0; tl_ws_count = g_ws_preinit ? 1 : 0;
     if (g_mode == MODE_EXPLORE) wait_for_baton(me);
     g_thr[me].fn(g_thr[me].data);
     if (g_mode == MODE_EXPLORE) {
@@ -214,7 +226,8 @@ static void run_region(void (*fn)(void*), void* data) {
         g_thr[t].state = 1; g_thr[t].waits_on = nullptr; g_thr[t].go.store(0); g_thr[t].site = "start";
         g_thr[t].steps = 0; g_thr[t].view = 1469598103934665603ul; g_thr[t].fn = fn; g_thr[t].data = data;
     }
-    g_master_go.store(0);
+    g_master_go.store(0); g_barrier_arrived = 0; g_single_count.store(0); g_ws_gen.store(g_ws_preinit ? 1 : 0);
+    if (g_mode == MODE_FREE) { pthread_barrier_init(&g_real_barrier, nullptr, (unsigned)T); g_real_barrier_ok = true; }
     for (int t = 0; t < T; t++) pthread_create(&g_thr[t].th, nullptr, thread_main, (void*)(long)t);
     if (g_mode == MODE_EXPLORE) {
         int first = choose(-1, "region_start");
@@ -222,11 +235,10 @@ static void run_region(void (*fn)(void*), void* data) {
         while (g_master_go.load(std::memory_order_acquire) == 0) futex_wait(&g_master_go, 0);
     }
     for (int t = 0; t < T; t++) pthread_join(g_thr[t].th, nullptr);
+    if (g_real_barrier_ok) { pthread_barrier_destroy(&g_real_barrier); g_real_barrier_ok = false; }
+    g_ws_preinit = false;
     g_region_active = false; g_running = -1; g_nthr = 0;
 }
-
-// ------------------------------------------------------------------------------------------------ sections work share
-static std::atomic<int> g_sections_next; static int g_sections_count = 0;
 
 // ------------------------------------------------------------------------------------------------ public control API
 void set_mode(int mode, int team) { g_mode = mode; g_team = team < 1 ? 1 : team; }
@@ -261,7 +273,55 @@ unsigned GOMP_sections_next() {
 void GOMP_sections_end_nowait() {}
 void GOMP_sections_end() {}
 unsigned GOMP_sections_start(unsigned count) { g_sections_count = (int)count; g_sections_next.store(2); return 1; }
-void GOMP_barrier() {}
+void GOMP_barrier() {
+    if (tl_team <= 1 || !tl_in_region) return;
+    if (g_mode == MODE_FREE) { if (g_real_barrier_ok) pthread_barrier_wait(&g_real_barrier); return; }
+    if (g_mode != MODE_EXPLORE || !g_region_active) return;
+    int me = tl_tid; point("barrier"); static char barrier_tag; TSAN_REL(&barrier_tag);
+    int alive = 0; for (int t = 0; t < g_nthr; t++) if (g_thr[t].state != 3) alive++;
+    if (++g_barrier_arrived >= alive) {                    // the last one to arrive releases the others and goes on
+        g_barrier_arrived = 0; for (int t = 0; t < g_nthr; t++) if (g_thr[t].state == 4) g_thr[t].state = 1;
+        TSAN_ACQ(&barrier_tag); point("barrier_release"); return; }
+    g_thr[me].state = 4; g_thr[me].site = "barrier_wait";
+    int nxt = choose(-1, "blocked_at_barrier");
+    if (nxt < 0) region_end_or_deadlock(); else resume(nxt);     // nobody can run: a thread left the region without reaching the barrier
+    wait_for_baton(me); TSAN_ACQ(&barrier_tag);
+}
+bool GOMP_single_start() {
+    if (tl_team <= 1 || !tl_in_region || g_mode == MODE_SERIAL) return true;
+    point("single_start");
+    unsigned long mine = tl_single_count++, expect = mine;
+    return g_single_count.compare_exchange_strong(expect, mine + 1);     // the first thread to reach this instance of the construct executes it
+}
+
+// dynamically scheduled loops: iterations are handed out chunk by chunk, every hand-out is a scheduling point
+static WS* ws_cur() { return (tl_team <= 1 || !tl_in_region || g_mode == MODE_SERIAL) ? &tl_ws : &g_ws; }
+static void ws_init(const WS& w) { WS* c = ws_cur(); if (c == &tl_ws) { tl_ws = w; return; } unsigned long mine = tl_ws_count++; if (g_mode == MODE_FREE) pthread_mutex_lock(&g_real_ws); else TSAN_ACQ(&g_real_ws); if (g_ws_gen.load() == mine) { g_ws = w; g_ws_gen.store(mine + 1); } if (g_mode == MODE_FREE) pthread_mutex_unlock(&g_real_ws); else TSAN_REL(&g_real_ws); }
+static bool ws_take(unsigned long long* i0, unsigned long long* i1) { WS* c = ws_cur(); if (c == &g_ws) { point("loop_next"); if (g_mode == MODE_FREE) pthread_mutex_lock(&g_real_ws); else TSAN_ACQ(&g_real_ws); } bool ok = c->next < c->n; if (ok) { *i0 = c->next; *i1 = std::min(c->n, c->next + c->chunk); c->next = *i1; } if (c == &g_ws) { if (g_mode == MODE_FREE) pthread_mutex_unlock(&g_real_ws); else TSAN_REL(&g_real_ws); } return ok; }
+static WS ws_long(long start, long end, long incr, long chunk) { WS w; w.lstart = start; w.lincr = incr; w.chunk = chunk > 0 ? (unsigned long long)chunk : 1; w.n = incr > 0 ? (end > start ? (unsigned long long)((end - start + incr - 1) / incr) : 0) : (end < start ? (unsigned long long)((start - end - incr - 1) / -incr) : 0); return w; }
+static WS ws_ull(bool up, unsigned long long start, unsigned long long end, unsigned long long incr, unsigned long long chunk) { WS w; w.up = up; w.ustart = start; w.uincr = incr; w.chunk = chunk ? chunk : 1; if (up) w.n = end > start ? (end - start + incr - 1) / incr : 0; else { unsigned long long d = 0 - incr; w.n = start > end ? (start - end + d - 1) / d : 0; } return w; }
+static bool ws_next_long(long* s, long* e) { unsigned long long a, b; if (!ws_take(&a, &b)) return false; WS* c = ws_cur(); *s = c->lstart + (long)a * c->lincr; *e = c->lstart + (long)b * c->lincr; return true; }
+static bool ws_next_ull(unsigned long long* s, unsigned long long* e) { unsigned long long a, b; if (!ws_take(&a, &b)) return false; WS* c = ws_cur(); *s = c->ustart + a * c->uincr; *e = c->ustart + b * c->uincr; return true; }
+#define VOMP_LOOP_FAMILY(NAME) \
+bool GOMP_loop_##NAME##_start(long start, long end, long incr, long chunk, long* is, long* ie) { ws_init(ws_long(start, end, incr, chunk)); return ws_next_long(is, ie); } \
+bool GOMP_loop_##NAME##_next(long* is, long* ie) { return ws_next_long(is, ie); } \
+bool GOMP_loop_ull_##NAME##_start(bool up, unsigned long long start, unsigned long long end, unsigned long long incr, unsigned long long chunk, unsigned long long* is, unsigned long long* ie) { ws_init(ws_ull(up, start, end, incr, chunk)); return ws_next_ull(is, ie); } \
+bool GOMP_loop_ull_##NAME##_next(unsigned long long* is, unsigned long long* ie) { return ws_next_ull(is, ie); } \
+void GOMP_parallel_loop_##NAME(void (*fn)(void*), void* data, unsigned num_threads, long start, long end, long incr, long chunk, unsigned flags) { \
+    if (g_mode == MODE_SERIAL || tl_in_region) { WS saved = tl_ws; int ti = tl_in_region, st = tl_tid, tt = tl_team; tl_tid = 0; tl_team = 1; tl_in_region = ti + 1; tl_ws = ws_long(start, end, incr, chunk); fn(data); tl_ws = saved; tl_tid = st; tl_team = tt; tl_in_region = ti; return; } \
+    g_ws = ws_long(start, end, incr, chunk); g_ws_preinit = true; run_region(fn, data); }
+VOMP_LOOP_FAMILY(dynamic) VOMP_LOOP_FAMILY(nonmonotonic_dynamic) VOMP_LOOP_FAMILY(guided) VOMP_LOOP_FAMILY(nonmonotonic_guided)
+#define VOMP_RUNTIME_FAMILY(NAME) \
+bool GOMP_loop_##NAME##_start(long start, long end, long incr, long* is, long* ie) { ws_init(ws_long(start, end, incr, 1)); return ws_next_long(is, ie); } \
+bool GOMP_loop_##NAME##_next(long* is, long* ie) { return ws_next_long(is, ie); } \
+bool GOMP_loop_ull_##NAME##_start(bool up, unsigned long long start, unsigned long long end, unsigned long long incr, unsigned long long* is, unsigned long long* ie) { ws_init(ws_ull(up, start, end, incr, 1)); return ws_next_ull(is, ie); } \
+bool GOMP_loop_ull_##NAME##_next(unsigned long long* is, unsigned long long* ie) { return ws_next_ull(is, ie); } \
+void GOMP_parallel_loop_##NAME(void (*fn)(void*), void* data, unsigned num_threads, long start, long end, long incr, unsigned flags) { \
+    if (g_mode == MODE_SERIAL || tl_in_region) { WS saved = tl_ws; int ti = tl_in_region, st = tl_tid, tt = tl_team; tl_tid = 0; tl_team = 1; tl_in_region = ti + 1; tl_ws = ws_long(start, end, incr, 1); fn(data); tl_ws = saved; tl_tid = st; tl_team = tt; tl_in_region = ti; return; } \
+    g_ws = ws_long(start, end, incr, 1); g_ws_preinit = true; run_region(fn, data); }
+VOMP_RUNTIME_FAMILY(runtime) VOMP_RUNTIME_FAMILY(nonmonotonic_runtime) VOMP_RUNTIME_FAMILY(maybe_nonmonotonic_runtime)
+void GOMP_loop_end() { GOMP_barrier(); }
+void GOMP_loop_end_nowait() {}
 
 static void lock_acquire(const void* addr, const char* site) {
     if (g_mode == MODE_EXPLORE && g_region_active) {
@@ -290,15 +350,15 @@ static void lock_release(const void* addr, const char* site) {
 
 void GOMP_critical_start() {
     lock_acquire(&g_critical_tag, "critical_start");
-    if (g_mode != MODE_SERIAL) pthread_mutex_lock(&g_real_critical);
+    if (g_mode == MODE_FREE) pthread_mutex_lock(&g_real_critical); else if (g_mode == MODE_EXPLORE) TSAN_ACQ(&g_real_critical);   // explore: one thread runs at a time, the sanitizer only needs the ordering
 }
 void GOMP_critical_end() {
-    if (g_mode != MODE_SERIAL) pthread_mutex_unlock(&g_real_critical);
+    if (g_mode == MODE_FREE) pthread_mutex_unlock(&g_real_critical); else if (g_mode == MODE_EXPLORE) TSAN_REL(&g_real_critical);
     lock_release(&g_critical_tag, "critical_end");
 }
 static pthread_mutex_t g_real_atomic = PTHREAD_MUTEX_INITIALIZER;
-void GOMP_atomic_start() { if (g_mode != MODE_SERIAL) pthread_mutex_lock(&g_real_atomic); }
-void GOMP_atomic_end() { if (g_mode != MODE_SERIAL) pthread_mutex_unlock(&g_real_atomic); }
+void GOMP_atomic_start() { if (g_mode == MODE_FREE) pthread_mutex_lock(&g_real_atomic); else if (g_mode == MODE_EXPLORE) TSAN_ACQ(&g_real_atomic); }
+void GOMP_atomic_end() { if (g_mode == MODE_FREE) pthread_mutex_unlock(&g_real_atomic); else if (g_mode == MODE_EXPLORE) TSAN_REL(&g_real_atomic); }
 
 // OpenMP locks: keyed by address in a side table.  The repository copies `node` objects (and with them the lock
 // bytes) and default-constructed nodes never call omp_init_lock; libgomp tolerates this because its lock is a plain
@@ -310,10 +370,10 @@ void omp_init_lock(void* l) { }
 void omp_destroy_lock(void* l) { }
 void omp_set_lock(void* l) {
     lock_acquire(l, "omp_set_lock");
-    if (g_mode != MODE_SERIAL) pthread_mutex_lock(real_lock_for(l));
+    if (g_mode == MODE_FREE) pthread_mutex_lock(real_lock_for(l)); else if (g_mode == MODE_EXPLORE) TSAN_ACQ(real_lock_for(l));
 }
 void omp_unset_lock(void* l) {
-    if (g_mode != MODE_SERIAL) pthread_mutex_unlock(real_lock_for(l));
+    if (g_mode == MODE_FREE) pthread_mutex_unlock(real_lock_for(l)); else if (g_mode == MODE_EXPLORE) TSAN_REL(real_lock_for(l));
     lock_release(l, "omp_unset_lock");
 }
 int omp_get_thread_num() { return tl_tid; }
